@@ -20,6 +20,18 @@ inductive Moment (M : Machine S) (c0 : Nat) : Node → List Effect → Prop
       (okc : ListenOK M (recover M n).1 cont) (pre post : List Effect)
       (h : (liveRun M (recover M n).1 cont).2 = pre ++ post) :
       Moment M c0 (applyEffects (recover M n).2.2 pre) (hist ++ (recover M n).2.1 ++ pre)
+  /-- the first process STOPPED between two inputs — regularly, or because the `SetWALEntry` of the
+  next input failed — and `Close` flushed the pending batch -/
+  | stoppedFirst (ins : List Input) (ok : ListenOK M (M.init (c0 + 1)) ins) :
+      Moment M c0
+        (applyEffects (Node.fresh c0) ((liveRun M (M.init (c0 + 1)) ins).2 ++ [Effect.flush]))
+        ((liveRun M (M.init (c0 + 1)) ins).2 ++ [Effect.flush])
+  /-- a restarted process stopped that way after its replay and any further inputs -/
+  | stoppedResumed (n : Node) (hist : List Effect) (hm : Moment M c0 n hist) (cont : List Input)
+      (okc : ListenOK M (recover M n).1 cont) :
+      Moment M c0
+        (applyEffects (recover M n).2.2 ((liveRun M (recover M n).1 cont).2 ++ [Effect.flush]))
+        (hist ++ (recover M n).2.1 ++ (liveRun M (recover M n).1 cont).2 ++ [Effect.flush])
 
 theorem moment_durable (M : Machine S) (hs : ReplaySafe M) (c0 : Nat) (n : Node)
     (hist : List Effect) (hm : Moment M c0 n hist) : Durable M c0 n hist := by
@@ -31,6 +43,16 @@ theorem moment_durable (M : Machine S) (hs : ReplaySafe M) (c0 : Nat) (n : Node)
     obtain ⟨_, insd, sd, Ed, trd, hsd, ctx⟩ := recovery_durable M hs c0 n hist ih
     rw [hsd] at okc h
     exact durable_all M hs c0 cont insd sd Ed _ trd _ _ ctx okc pre post h
+  | stoppedFirst ins ok =>
+    have ctx := ctx_all M hs c0 ins [] _ [] c0 [] [] (Node.fresh c0) (Ctx.init M hs c0) ok
+    simp only [List.nil_append] at ctx
+    simpa [applyEffects_append, applyEffects] using ctx.flush_durable
+  | stoppedResumed n hist _ cont okc ih =>
+    obtain ⟨_, insd, sd, Ed, trd, hsd, ctx⟩ := recovery_durable M hs c0 n hist ih
+    rw [hsd] at okc
+    have ctx' := ctx_all M hs c0 cont insd sd Ed _ trd _ _ ctx okc
+    rw [hsd]
+    simpa [applyEffects_append, applyEffects] using ctx'.flush_durable
 
 /-- From a durable image: the recovered state is the state of the uncrashed LIVE run over inputs
 `insd` whose log is exactly the image's flushed entries. -/
